@@ -86,6 +86,7 @@ type fakeBESS struct {
 	// fault injection
 	deadAfter int // >=0: commands with index >= deadAfter are refused (the agent was killed at that point)
 	failAt    map[int]bool
+	onCmd     func() // observation hook, called at the start of every command
 }
 
 func newFakeBESS() *fakeBESS {
@@ -104,6 +105,9 @@ func fbInts(fs []*pb.FieldData) []uint64 {
 func (f *fakeBESS) ModuleCommand(ctx context.Context, in *pb.CommandRequest, _ ...grpc.CallOption) (*pb.CommandResponse, error) {
 	f.mu.Lock()
 	defer f.mu.Unlock()
+	if f.onCmd != nil {
+		f.onCmd()
+	}
 	idx := f.ncmd
 	f.ncmd++
 	rec := fbCmd{Module: in.Name, Cmd: in.Cmd, Epoch: f.epoch}
